@@ -417,6 +417,11 @@ class World:
                 body = '{"result":null,"error":{"code":%d,"message":"boom"},"id":1}' % code
             elif shape == 'dict+result':
                 body = '{"result":5,"error":{"code":%d,"message":"boom"},"id":1}' % code      # (a small number: results get multiplied by COIN)
+            elif shape.startswith('dict-msg-'):
+                # the code decides the class; the message is whatever JSON value the server put there
+                tok = {'dict-msg-null': 'null', 'dict-msg-number': '17', 'dict-msg-list': '["boom",1]', 'dict-msg-object': '{"text":"boom"}',
+                       'dict-msg-empty': '""', 'dict-msg-blank': '"  \\n"', 'dict-msg-unicode': '"caf\\u00e9 \\ud83d\\ude00 %s %d"'}[shape]
+                body = '{"result":null,"error":{"code":%d,"message":%s},"id":1}' % (code, tok)
             elif shape == 'nocode':
                 body = '{"result":null,"error":{"message":"boom"}}'; exp_code = -345
             elif shape == 'nomessage':
@@ -508,7 +513,8 @@ hash_sinks = st.sampled_from(['getblock', 'getblockheader', 'getrawtransaction',
 err_methods = st.sampled_from(['getbalance', 'getblock', 'getblockheader', 'getrawtransaction', 'gettransaction', 'getblockhash', 'sendtoaddress', 'call',
                                'getbestblockhash', 'gettxout', 'sendrawtransaction'])
 err_shapes = st.sampled_from(['dict', 'dict', 'dict', 'dict-fraction', 'dict+result', 'nocode', 'nomessage', 'string', 'number', 'list', 'noresult', 'nonjson', 'empty', 'noresponse',
-                              'falsy-dict', 'falsy-string', 'falsy-zero', 'falsy-list', 'falsy-false'])
+                              'falsy-dict', 'falsy-string', 'falsy-zero', 'falsy-list', 'falsy-false',
+                              'dict-msg-null', 'dict-msg-number', 'dict-msg-list', 'dict-msg-object', 'dict-msg-empty', 'dict-msg-blank', 'dict-msg-unicode'])
 codes = st.one_of(st.sampled_from(sorted(REG)), st.sampled_from([-1, -3, -4, -6, -32601, -32700, 0, 1, -342, -343, -344, -345]), st.integers(-40, 5))
 hashes = st.one_of(gen.hash32, st.sampled_from([bytes(31) + b'\x01', b'\x01' + bytes(31), bytes(range(32))]))
 
@@ -571,7 +577,9 @@ def t_amounts(ctx):
     for k in range(0, len(ops), 40):
         ctx.run({'ops': ops[k:k + 40]})
     # every registered code through every wrapper
-    eops = [['error', m, sh_, c] for sh_ in ('falsy-dict', 'falsy-string', 'falsy-zero', 'falsy-list', 'falsy-false', 'string', 'number', 'list', 'nocode', 'noresult') for c in (1, 2) for m in ('getbalance', 'call')] + \
+    eops = [['error', m, sh_, c] for sh_ in ('dict-msg-null', 'dict-msg-number', 'dict-msg-list', 'dict-msg-object', 'dict-msg-empty', 'dict-msg-blank', 'dict-msg-unicode')
+            for c in (-5, -8, -1, -32601) for m in ('getbalance', 'getrawtransaction', 'call')] + \
+        [['error', m, sh_, c] for sh_ in ('falsy-dict', 'falsy-string', 'falsy-zero', 'falsy-list', 'falsy-false', 'string', 'number', 'list', 'nocode', 'noresult') for c in (1, 2) for m in ('getbalance', 'call')] + \
         [['error', m, 'dict', c, hs] for hs in (404, 200) for c in sorted(REG) + [-1, -32601] for m in ('getbalance', 'getblock', 'call')] + \
         [['error', m, 'dict', c] for c in sorted(REG) + [-1, -32601] for m in ('getbalance', 'getblock', 'getblockheader', 'getrawtransaction',
                                                                                     'gettransaction', 'getblockhash', 'call', 'sendrawtransaction')]
